@@ -3,14 +3,19 @@
 
   /venv/bin/python tools/kernels_selftest.py [-j N] [kernel ...]
 
-(a) unchanged tree: extraction + `./lk Earverif.Props.Kernels` succeed, every theorem checks;
+(a) unchanged tree: extraction + `./lk Earverif.Props.Kernels Earverif.Props.KernelsSel Earverif.Props.KernelsAdm`
+    succeed, every theorem checks;
 (b) per kernel, in a scratch worktree of /repo (EAR_REPO mode: private copy of the Lean project), one small
     semantic mutation of that kernel's source: the build of Props/Kernels must FAIL and the failing theorems
     must be that kernel's (and, where one Python function feeds several kernels, only theirs);
 (c) per kernel, one behaviour-preserving textual edit: reports whether the equality still checks;
     extra cases show preserving edits that are known to break the equality (a broken equality without a
     failing input is reported by the framework as `no-failing-input-found`);
-(d) the translator refuses (with a message naming the construct) what is outside the whitelist.
+(d) the translator refuses (with a message naming the construct) what is outside the whitelist: functions of the
+    unchanged tree (kernels.NOT_REGISTERED: enumerate / first-match loops / any() over two clauses / ambiguous `raises` /
+    str.join, Decimal ...) and, in the extra cases, one edit per new construct that leaves it (lower-case hex format,
+    `!r`, a counter that can go negative, `==` on identity tokens, `return` inside a loop, an unmapped `raise`, ...).
+Only the kernel's own group (generated + proof module) is built in each trial.
 All worktrees are removed.  Exit status 0 iff (a), (b) and (d) behave as stated and every (c) case has the
 outcome recorded in its `expect` field.
 """
@@ -268,6 +273,154 @@ CASES.update({
         expect="holds", why="conjuncts swapped"),
 })
 
+
+# ---- round 3: fileio/adm (C08), item selection (C06, C07, C14)
+TFM = "ear/fileio/adm/time_format.py"
+GI = "ear/fileio/adm/generate_ids.py"
+PA = "ear/core/select_items/pack_allocation.py"
+SU = "ear/core/select_items/utils.py"
+SI = "ear/core/select_items/select_items.py"
+HO = "ear/core/select_items/hoa.py"
+VA = "ear/core/select_items/validate.py"
+MX = "ear/core/select_items/matrix.py"
+PTF = ["parse_time_frac", "from_fraction"]
+INBY = ["in_by_id", "is_compatible", "could_possibly_allocate", "only_selected_test"]
+CASES.update({
+    "unparse_whole_part": dict(
+        file=TFM, mutation=[("    hours, minutes = divmod(minutes, 60)", "    hours, minutes = divmod(minutes, 24)")],
+        preserving=[("    minutes, seconds = divmod(seconds, 60)\n    hours, minutes = divmod(minutes, 60)",
+                     "    minutes, seconds = seconds // 60, seconds % 60\n    hours, minutes = minutes // 60, minutes % 60")],
+        expect="holds", why="divmod written as // and %"),
+    "unparse_fractional_fmt": dict(
+        file=TFM, mutation=[('return f"{whole_part}.{numerator}S{denominator}"', 'return f"{whole_part}.{denominator}S{numerator}"')],
+        preserving=[('return f"{whole_part}.{numerator}S{denominator}"', 'return whole_part + f".{numerator}S{denominator}"')],
+        expect="holds", why="f-string split into a concatenation"),
+    "parse_time_frac": dict(
+        file=TFM, also=PTF, mutation=[("        if not numerator < denominator:", "        if not numerator <= denominator:")],
+        preserving=[("        if not numerator < denominator:", "        if numerator >= denominator:")],
+        expect="holds", why="`not a < b` -> `a >= b`"),
+    "parse_time_dec": dict(
+        file=TFM, mutation=[("        return ((hour * 60) + minute) * 60 + second", "        return ((hour * 24) + minute) * 60 + second")],
+        preserving=[("        return ((hour * 60) + minute) * 60 + second", "        return (hour * 60 + minute) * 60 + second")],
+        expect="holds", why="redundant parentheses (same AST)"),
+    "from_fraction": dict(
+        file=TFM, also=PTF, mutation=[("return cls(fraction * format_denominator, format_denominator)", "return cls(fraction, format_denominator)")],
+        preserving=[("return cls(fraction * format_denominator, format_denominator)", "return cls(format_denominator * fraction, format_denominator)")],
+        expect="holds", why="commuted product over Rat"),
+})
+_ID_CASES = [  # kernel, mutation, preserving
+    ("id_apr", ('"APR_{id:04X}".format(id=id)', '"APR_{id:08X}".format(id=id)'), ('"APR_{id:04X}".format(id=id)', '"APR_{:04X}".format(id)')),
+    ("id_aco", ('"ACO_{id:04X}".format(id=id)', '"ACO_{id:04d}".format(id=id)'), ('"ACO_{id:04X}".format(id=id)', '"ACO_{0:04X}".format(id)')),
+    ("id_ao", ('"AO_{id:04X}".format(id=id)', '"AO_{id:05X}".format(id=id)'), ('"AO_{id:04X}".format(id=id)', '"AO_{n:04X}".format(n=id)')),
+    ("id_avs", ('"AVS_{id:04X}_{avs_id:04X}".format(id=id, avs_id=avs_id)', '"AVS_{avs_id:04X}_{id:04X}".format(id=id, avs_id=avs_id)'),
+     ('"AVS_{id:04X}_{avs_id:04X}".format(id=id, avs_id=avs_id)', 'f"AVS_{id:04X}_{avs_id:04X}"')),
+    ("id_ap", ('"AP_{type.value:04X}{id:04X}".format(id=id, type=element.type)', '"AP_{id:04X}{type.value:04X}".format(id=id, type=element.type)'),
+     ('"AP_{type.value:04X}{id:04X}".format(id=id, type=element.type)', '"AP_{t:04X}{id:04X}".format(id=id, t=element.type.value)')),
+    ("id_ac", ('"AC_{type.value:04X}{id:04X}".format(id=id, type=element.type)', '"AC_{type.value:04X}{id:08X}".format(id=id, type=element.type)'),
+     ('"AC_{type.value:04X}{id:04X}".format(id=id, type=element.type)', '"AC_{t:04X}{id:04X}".format(id=id, t=element.type.value)')),
+    ("id_ab", ("_{block_id:08X}", "_{block_id:04X}"), ('.format(id=id, type=element.type, block_id=block_id)', '.format(block_id=block_id, type=element.type, id=id)')),
+    ("id_as", ('"AS_{type_id:04X}{id:04X}".format(id=id, type_id=type_id)', '"AS_{type_id:04X}{id:04X}".format(id=type_id, type_id=id)'),
+     ('"AS_{type_id:04X}{id:04X}".format(id=id, type_id=type_id)', '"AS_{:04X}{:04X}".format(type_id, id)')),
+    ("id_at", ("_{track_id:02X}", "_{track_id:04X}"), ('"AT_{type_id:04X}{id:04X}_{track_id:02X}".format(\n                id=id, type_id=type_id, track_id=track_id\n            )',
+                                                     '"AT_{type_id:04X}{id:04X}_{track_id:02X}".format(type_id=type_id, id=id, track_id=track_id)')),
+    ("id_atu", ('"ATU_{id:08X}".format(id=id)', '"ATU_{id:04X}".format(id=id)'), ('"ATU_{id:08X}".format(id=id)', 'f"ATU_{id:08X}"')),
+]
+for _n, _m, _p in _ID_CASES:
+    CASES[_n] = dict(file=GI, mutation=[_m], preserving=[_p], expect="holds", why="same fields, written differently (positional / renamed / f-string)")
+_START_CASES = [  # kernel, the enumerate text up to the start value, start literal
+    ("ids_start_apr", "enumerate(adm.audioProgrammes, ", "0x1001"), ("ids_start_aco", "enumerate(adm.audioContents, ", "0x1001"),
+    ("ids_start_ao", "enumerate(adm.audioObjects, ", "0x1001"), ("ids_start_avs", "enumerate(element.alternativeValueSets, ", "0x1"),
+    ("ids_start_ap", "enumerate(non_common(adm.audioPackFormats), ", "0x1001"),
+    ("ids_start_ac", "enumerate(non_common(adm.audioChannelFormats), ", "0x1001"),
+    ("ids_start_ab", "enumerate(element.audioBlockFormats, ", "0x1"), ("ids_start_as", "enumerate(non_common(adm.audioStreamFormats), ", "0x1001"),
+    ("ids_start_at", "enumerate(_stream_track_formats(adm, element), ", "0x1"), ("ids_start_atu", "enumerate(adm.audioTrackUIDs, ", "0x1"),
+]
+for _n, _t, _v in _START_CASES:
+    CASES[_n] = dict(file=GI, mutation=[(_t + _v + ")", _t + ("0x1000" if _v == "0x1001" else "0x0") + ")")],
+                     preserving=[(_t + _v + ")", _t + str(int(_v, 16)) + ")")], expect="holds", why="hex literal written in decimal")
+CASES.update({
+    "in_by_id": dict(
+        file=SU, also=INBY, mutation=[("return any(element is item for item in collection)", "return all(element is item for item in collection)")],
+        preserving=[("return any(element is item for item in collection)", "return any(x is element for x in collection)")],
+        expect="holds", why="operands of `is` swapped, loop variable renamed"),
+    "is_compatible": dict(
+        file=PA, mutation=[("(track.channel_format is alloc_channel.channel_format and", "(track.channel_format is alloc_channel.channel_format or")],
+        preserving=[("            (track.channel_format is alloc_channel.channel_format and\n             in_by_id(track.pack_format, alloc_channel.pack_formats)))",
+                     "            (in_by_id(track.pack_format, alloc_channel.pack_formats) and\n             track.channel_format is alloc_channel.channel_format))")],
+        expect="holds", why="conjuncts swapped"),
+    "could_possibly_allocate": dict(
+        file=PA, mutation=[("        return n_found >= len(pack.channels)", "        return n_found > len(pack.channels)")],
+        preserving=[("        if len(pack.channels) > len(tracks) - remaining_in_partial:", "        if len(tracks) - remaining_in_partial < len(pack.channels):"),
+                    ("        return n_found >= len(pack.channels)", "        return len(pack.channels) <= n_found")],
+        expect="holds", why="comparisons flipped"),
+    "fail_early_test": dict(
+        file=PA, mutation=[("    if len(tracks) < remaining_in_partial:", "    if len(tracks) <= remaining_in_partial:")],
+        preserving=[("    if len(tracks) < remaining_in_partial:", "    if remaining_in_partial > len(tracks):")],
+        expect="holds", why="comparison flipped"),
+    "get_nfcRefDist": dict(
+        file=HO, mutation=[("return None if nfcRefDist == 0.0 else nfcRefDist", "return None if nfcRefDist == 1.0 else nfcRefDist")],
+        preserving=[("return None if nfcRefDist == 0.0 else nfcRefDist", "return nfcRefDist if nfcRefDist != 0.0 else None")],
+        expect="holds", why="conditional inverted"),
+    "get_track_spec": dict(
+        file=SI, mutation=[("DirectTrackSpec(allocation_track_uid.track_uid.trackIndex - 1)", "DirectTrackSpec(allocation_track_uid.track_uid.trackIndex)")],
+        preserving=[("        if allocation_track_uid is not None:\n            return DirectTrackSpec(allocation_track_uid.track_uid.trackIndex - 1)\n        else:\n            return SilentTrackSpec()",
+                     "        if allocation_track_uid is None:\n            return SilentTrackSpec()\n        return DirectTrackSpec(allocation_track_uid.track_uid.trackIndex - 1)")],
+        expect="holds", why="None test inverted, branches swapped"),
+    "silent_tracks": dict(
+        file=SI, mutation=[("silent_tracks = len(obj.audioTrackUIDs) - len(real_track_uids)", "silent_tracks = len(obj.audioTrackUIDs) - len(real_track_uids) + 1")],
+        preserving=[("            silent_tracks = len(obj.audioTrackUIDs) - len(real_track_uids)",
+                     "            n_all = len(obj.audioTrackUIDs)\n            silent_tracks = n_all - len(real_track_uids)")],
+        expect="holds", why="local introduced"),
+    "select_programme": dict(
+        file=SI, mutation=[("        if len(state.adm.audioProgrammes) > 1:", "        if len(state.adm.audioProgrammes) > 2:")],
+        preserving=[("        elif len(state.adm.audioProgrammes) == 1:", "        elif 1 == len(state.adm.audioProgrammes):")],
+        expect="holds", why="operands of == swapped"),
+    "only_selected_test": dict(
+        file=SI, mutation=[("    if (state.audioObjects is None or\n            not any(in_by_id(", "    if (state.audioObjects is None or\n            any(in_by_id(")],
+        preserving=[("            not any(in_by_id(audio_object, objects_to_ignore)\n                    for audio_object in state.audioObjects)):",
+                     "            not any(in_by_id(ao, objects_to_ignore)\n                    for ao in state.audioObjects)):")],
+        expect="holds", why="loop variable renamed"),
+    "matrix_type_of": dict(
+        file=MX, mutation=[("    elif apf.inputPackFormat is not None:\n        return Type.ENCODE", "    elif apf.inputPackFormat is not None:\n        return Type.DECODE")],
+        preserving=[("    if apf.inputPackFormat is not None and apf.outputPackFormat is not None:", "    if apf.outputPackFormat is not None and apf.inputPackFormat is not None:")],
+        expect="holds", why="conjuncts swapped"),
+    "validate_non_matrix_pack": dict(
+        file=VA, mutation=[("    if apf.outputPackFormat is not None:\n        raise AdmError(\"non-matrix", "    if apf.outputPackFormat is None:\n        raise AdmError(\"non-matrix")],
+        preserving=[("    if apf.encodePackFormats:\n        raise AdmError(\"non-matrix", "    if len(apf.encodePackFormats) > 0:\n        raise AdmError(\"non-matrix")],
+        expect="holds", why="truth value of a list -> len() > 0"),
+    "validate_track_or_channel": dict(
+        file=VA, mutation=[("        if atu.audioTrackFormat is None and atu.audioChannelFormat is None:", "        if atu.audioTrackFormat is None or atu.audioChannelFormat is None:")],
+        preserving=[("        if atu.audioTrackFormat is not None and atu.audioChannelFormat is not None:", "        if atu.audioChannelFormat is not None and atu.audioTrackFormat is not None:")],
+        expect="holds", why="conjuncts swapped"),
+    "validate_hoa_channels": dict(
+        file=VA, mutation=[("            if len(audioChannelFormat.audioBlockFormats) != 1:", "            if len(audioChannelFormat.audioBlockFormats) > 1:")],
+        preserving=[("            if len(audioChannelFormat.audioBlockFormats) != 1:", "            if not len(audioChannelFormat.audioBlockFormats) == 1:")],
+        expect="holds", why="`!=` -> `not ==`"),
+    "validate_objects_channels": dict(
+        file=VA, mutation=[("        if audioChannelFormat.type == TypeDefinition.Objects:", "        if audioChannelFormat.type == TypeDefinition.DirectSpeakers:")],
+        preserving=[("        if audioChannelFormat.type == TypeDefinition.Objects:", "        if TypeDefinition.Objects == audioChannelFormat.type:")],
+        expect="holds", why="operands of == swapped"),
+    "validate_pack_channel_types": dict(
+        file=VA, mutation=[("            if audioChannelFormat.type != audioPackFormat.type:", "            if audioChannelFormat.type == audioPackFormat.type:")],
+        preserving=[("            if audioChannelFormat.type != audioPackFormat.type:", "            if audioPackFormat.type != audioChannelFormat.type:")],
+        expect="holds", why="operands of != swapped"),
+    "validate_pack_subpack_types": dict(
+        file=VA, mutation=[("            if sub_audioPackFormat.type != audioPackFormat.type:", "            if sub_audioPackFormat.type == audioPackFormat.type:")],
+        preserving=[("            if sub_audioPackFormat.type != audioPackFormat.type:", "            if not sub_audioPackFormat.type == audioPackFormat.type:")],
+        expect="holds", why="`!=` -> `not ==`"),
+    "validate_v2_refs": dict(
+        file=VA, mutation=[("    if not v2_allowed and any(", "    if v2_allowed and any(")],
+        preserving=[("v2_allowed", "allowed_v2")], expect="holds", why="local renamed"),
+    "matrix_channel_blocks_test": dict(
+        file=VA, mutation=[("    if len(acf.audioBlockFormats) != 1:", "    if len(acf.audioBlockFormats) < 1:")],
+        preserving=[("    if len(acf.audioBlockFormats) != 1:", "    if not len(acf.audioBlockFormats) == 1:")],
+        expect="holds", why="`!=` -> `not ==`"),
+    "selected_track_checks": dict(
+        file=VA, mutation=[("    if audioTrackUID.audioPackFormat is None:", "    if audioTrackUID.audioPackFormat is not None:")],
+        preserving=[("    if audioTrackUID.trackIndex is None:", "    if not (audioTrackUID.trackIndex is not None):")],
+        expect="holds", why="`is None` -> `not (is not None)`"),
+})
+
 # extra behaviour-preserving (over the reals) edits that are EXPECTED to break the equality, with the reason
 EXTRA = [
     dict(kernel="direct_diffuse_split", file=GC, kind="preserving",
@@ -299,6 +452,32 @@ EXTRA = [
     dict(kernel="is_lfe", file=RC, kind="mutation",
          edits=[("            frequency.highPass is None):\n        return True", "            frequency.highPass is None):\n        return 1.0")],
          expect="breaks", why="translates, but the Lean def is ill-typed (number where a Bool is returned): stubbed by the type-check pass"),
+    # ---- round 3: one edit per new construct that leaves the whitelist
+    dict(kernel="id_apr", file=GI, kind="mutation", edits=[('"APR_{id:04X}".format(id=id)', '"APR_{id:04x}".format(id=id)')],
+         expect="breaks", why="format spec `04x` (lower-case hex): only 0<w>d and 0<w>X go through the Digits model -> refused"),
+    dict(kernel="unparse_whole_part", file=TFM, kind="mutation", edits=[("{hours:02d}", "{hours!r}")],
+         expect="breaks", why="`!r` conversion in an f-string field -> refused"),
+    dict(kernel="could_possibly_allocate", file=PA, kind="mutation", edits=[("                n_found += 1", "                n_found -= 1")],
+         expect="breaks", why="the counter is declared natural: `-` gives an Int, which cannot be assigned back -> refused"),
+    dict(kernel="is_compatible", file=PA, kind="mutation",
+         edits=[("(track.channel_format is alloc_channel.channel_format and", "(track.channel_format == alloc_channel.channel_format and")],
+         expect="breaks", why="`==` on identity tokens (attrs classes compare by value): only `is` is whitelisted there -> refused"),
+    dict(kernel="validate_track_or_channel", file=VA, kind="mutation",
+         edits=[("        if atu.audioTrackFormat is not None and atu.audioChannelFormat is not None:\n            raise AdmError(",
+                 "        if atu.audioTrackFormat is not None and atu.audioChannelFormat is not None:\n            return\n            raise AdmError(")],
+         expect="breaks", why="`return` inside a `for` loop (would end the whole validation) -> refused"),
+    dict(kernel="validate_non_matrix_pack", file=VA, kind="preserving",
+         edits=[("non-matrix audioPackFormat {apf.id} has inputPackFormat reference", "non-matrix audioPackFormat {apf.id} has an input pack reference")],
+         expect="breaks", why="the error kind of a `raise` is chosen by its message text: no entry of `raises` matches the new text -> refused"),
+    dict(kernel="ids_start_apr", file=GI, kind="mutation",
+         edits=[("enumerate(adm.audioProgrammes, 0x1001)", "enumerate(adm.audioProgrammes, len(adm.audioContents))")],
+         expect="breaks", why="a start value that is not a constant -> refused (unmapped attribute)"),
+    dict(kernel="get_nfcRefDist", file=HO, kind="mutation",
+         edits=[("return None if nfcRefDist == 0.0 else nfcRefDist", "return 0.0 if nfcRefDist is None else nfcRefDist")],
+         expect="breaks", why="branches of different kinds (number / Option) -> refused"),
+    dict(kernel="in_by_id", file=SU, kind="mutation",
+         edits=[("return any(element is item for item in collection)", "return any(element is item for item in collection if item is not None)")],
+         expect="breaks", why="filtered comprehension under any() -> refused"),
 ]
 
 
@@ -317,9 +496,9 @@ def apply_edits(root, file, edits):
     open(path, "w").write(s)
 
 
-def run_check(root):
+def run_check(root, group):
     env = dict(os.environ, EAR_REPO=root)
-    p = sh([PY, "-m", "harness.kernels", "check"], cwd=VERIF, env=env)
+    p = sh([PY, "-m", "harness.kernels", "check", group], cwd=VERIF, env=env)
     try:
         return json.loads(p.stdout[p.stdout.index("{"):])
     except Exception:
@@ -332,9 +511,11 @@ def sanity_python(root, file):
     return p.returncode == 0
 
 
+GROUP = {}  # kernel lean name -> group (filled in main)
+
+
 def trial(tag, kernel, file, edits_list):
     """edits_list: [(label, edits)], run one after the other in one worktree (file restored in between)"""
-    from harness import kernels
 
     wt = "/tmp/wt_kern_%s" % tag
     sh(["git", "-C", "/repo", "worktree", "remove", "--force", wt])
@@ -349,7 +530,7 @@ def trial(tag, kernel, file, edits_list):
             if not sanity_python(wt, file):
                 res.append((label, {"error": "edited file is not valid Python"}))
                 continue
-            res.append((label, run_check(wt)))
+            res.append((label, run_check(wt, GROUP[kernel])))
     finally:
         sh(["git", "-C", "/repo", "worktree", "remove", "--force", wt])
         sh(["git", "-C", "/repo", "worktree", "prune"])
@@ -367,30 +548,35 @@ def main():
         del args[i:i + 2]
     only = set(args)
     thm = {k.lean_name: sorted(k.theorems) for k in kernels.KERNELS}
+    GROUP.update({k.lean_name: k.group for k in kernels.KERNELS})
+    props = [g["props"] for g in kernels.GROUPS.values()]
     bad = 0
 
     # (a) unchanged tree
     print("== (a) unchanged tree (%s)" % kernels.common.REPO)
     t0 = time.time()
     kernels.extract()
-    p = sh(["./lk", "Earverif.Props.Kernels"], cwd=VERIF)
+    p = sh(["./lk"] + props, cwd=VERIF)
     dt = time.time() - t0
     st = kernels.status()
     ok = p.returncode == 0 and st is not None and not any(st.values()) and not kernels.refusals()
-    print("   extract + ./lk Earverif.Props.Kernels: %s in %.1fs; %d kernels, %d theorems, refused: %s"
-          % ("OK" if ok else "FAILED", dt, len(kernels.KERNELS), sum(len(v) for v in thm.values()), kernels.refusals() or "none"))
+    print("   extract + ./lk %s: %s in %.1fs; %d kernels (%s), %d theorems, refused: %s"
+          % (" ".join(props), "OK" if ok else "FAILED", dt, len(kernels.KERNELS),
+             ", ".join("%s %d" % (g, sum(1 for k in kernels.KERNELS if k.group == g)) for g in kernels.GROUPS),
+             len({t for v in thm.values() for t in v}), kernels.refusals() or "none"))
     if not ok:
         print((p.stdout + p.stderr)[-1500:])
         bad += 1
-    # forced rebuild time of the two modules
-    gen = os.path.join(kernels.common.LEAN, kernels.GEN_PATH_REL)
-    txt = open(gen).read()
-    open(gen, "w").write(txt + "\n-- touch\n")
-    t0 = time.time()
-    sh(["./lk", "Earverif.Props.Kernels"], cwd=VERIF)
-    print("   forced rebuild of Gen.Kernels + Props.Kernels: %.1fs" % (time.time() - t0))
-    open(gen, "w").write(txt)
-    sh(["./lk", "Earverif.Props.Kernels"], cwd=VERIF)
+    # forced rebuild time of the generated + proof module of each group
+    for gname, g in kernels.GROUPS.items():
+        gen = os.path.join(kernels.common.LEAN, g["gen"])
+        txt = open(gen).read()
+        open(gen, "w").write(txt + "\n-- touch\n")
+        t0 = time.time()
+        sh(["./lk", g["props"]], cwd=VERIF)
+        print("   forced rebuild of Gen.%s + Props.%s: %.1fs" % (gname, gname, time.time() - t0))
+        open(gen, "w").write(txt)
+        sh(["./lk", g["props"]], cwd=VERIF)
 
     # (d) refusals
     print("== (d) refused by the translator on the unchanged tree (not registered)")
